@@ -22,7 +22,7 @@ Definition cyclicb (G:graph) : bool :=
   | _, _ => true
   end.
 
-Definition check_C15 (G:graph) (out:load_res) : bool :=
+Definition check_C15g (G:graph) (out:load_res) : bool :=
   Bool.eqb (is_cycle_err out) (cyclicb G) &&
   match out with
   | Loaded l => seteqN (l_heads l) (heads_of G) && seteqN (l_real_heads l) (real_heads_of G)
@@ -37,10 +37,15 @@ Definition load_err_eqb (a b : load_err) : bool :=
   | ELoop, ELoop | EDepLoop, EDepLoop | ECycle, ECycle | EDepCycle, EDepCycle | EFuel, EFuel | EOther, EOther => true
   | _, _ => false
   end.
-Definition corr_C15 (G:graph) (out:load_res) : bool :=
-  match load G, out with
+Definition load_res_eqb (m out : load_res) : bool :=
+  match m, out with
   | Loaded a, Loaded b => list_eqb N.eqb (l_heads a) (l_heads b) && list_eqb N.eqb (l_bases a) (l_bases b)
                           && list_eqb N.eqb (l_real_heads a) (l_real_heads b) && list_eqb N.eqb (l_real_bases a) (l_real_bases b)
   | LoadErr a, LoadErr b => load_err_eqb a b
   | _, _ => false
   end.
+
+(* the checks as run by the harness: the history is given with depends_on as written (ids or labels) *)
+Definition check_C15 (R:rawgraph) (out:load_res) : bool := check_C15g (resolve_graph R) out.
+Definition corr_C15 (R:rawgraph) (out:load_res) : bool := load_res_eqb (load_raw R) out.
+Definition inclass_C15 (R:rawgraph) : bool := wf_refsb (resolve_graph R).
